@@ -1168,3 +1168,106 @@ CONTROLS['C13'] = [
       "    if name:\n        query = query.where(rp.c.name == name)\n    if uuid:\n        query = query.where(rp.c.uuid == uuid)\n",
       "    if uuid:\n        query = query.where(rp.c.uuid == uuid)\n    if name:\n        query = query.where(rp.c.name == name)\n"),
 ]
+
+HI = H + 'inventory.py'
+CONTROLS['C15'] = [
+    M('c15-unmapped-invalid-inventory', HA,
+      "    except exception.InvalidInventory as exc:\n        raise webob.exc.HTTPConflict(\n"
+      "            'Unable to allocate inventory: %(error)s' % {'error': exc})\n"
+      "    except exception.ConcurrentUpdateDetected as exc:\n        raise webob.exc.HTTPConflict(\n"
+      "            'Inventory and/or allocations changed while attempting to '\n"
+      "            'allocate: %(error)s' % {'error': exc},\n"
+      "            comment=errors.CONCURRENT_UPDATE)\n\n    req.response.status = 204\n"
+      "    req.response.content_type = None\n    return req.response\n\n\n@wsgi_wrapper.PlacementWsgify\n@microversion.version_handler('1.0', '1.7')",
+      "    except exception.ConcurrentUpdateDetected as exc:\n        raise webob.exc.HTTPConflict(\n"
+      "            'Inventory and/or allocations changed while attempting to '\n"
+      "            'allocate: %(error)s' % {'error': exc},\n"
+      "            comment=errors.CONCURRENT_UPDATE)\n\n    req.response.status = 204\n"
+      "    req.response.content_type = None\n    return req.response\n\n\n@wsgi_wrapper.PlacementWsgify\n@microversion.version_handler('1.0', '1.7')",
+      'R15.1'),
+    M('c15-inuse-escapes', HI,
+      "    except (exception.ConcurrentUpdateDetected,\n            exception.InventoryInUse) as exc:",
+      "    except exception.ConcurrentUpdateDetected as exc:", 'R15.1'),
+    M('c15-new-valueerror', H + 'usage.py',
+      "    usage = usage_obj.get_all_by_resource_provider_uuid(context, uuid)\n",
+      "    usage = usage_obj.get_all_by_resource_provider_uuid(context, uuid)\n"
+      "    if not usage:\n        raise ValueError('no usage')\n", 'R15.1'),
+    M('c15-get-before-validate', H + 'trait.py',
+      "    filters = {}\n\n    util.validate_query_params(req, schema.LIST_TRAIT_SCHEMA)\n\n    if 'name' in req.GET:",
+      "    filters = {}\n    wants_name = 'name' in req.GET\n\n    util.validate_query_params(req, schema.LIST_TRAIT_SCHEMA)\n\n    if wants_name:",
+      'R15.5'),
+    M('c15-reintroduce-F7', H + 'usage.py',
+      "    try:\n        project_id = req.GET.get('project_id')\n"
+      "        user_id = req.GET.get('user_id')\n"
+      "        consumer_type = req.GET.get('consumer_type')\n"
+      "    except UnicodeDecodeError:",
+      "    project_id = req.GET.get('project_id')\n    try:\n"
+      "        user_id = req.GET.get('user_id')\n"
+      "        consumer_type = req.GET.get('consumer_type')\n"
+      "    except UnicodeDecodeError:", 'R15.5'),
+    M('c15-normalizer-before-validate', HRP,
+      "    util.validate_query_params(req, schema)\n\n    filters = {}\n",
+      "    filters = {}\n    if 'required' in req.GET:\n"
+      "        util.normalize_traits_qs_params(req)\n"
+      "    util.validate_query_params(req, schema)\n", 'R15.5'),
+    M('c15-unguarded-int-amount', 'placement/util.py',
+      "        try:\n            amount = int(amount)\n        except ValueError:\n"
+      "            msg = ('Requested resource %(resource_name)s expected positive '\n"
+      "                   'integer amount. Got: %(amount)s.')\n"
+      "            msg = msg % {\n                'resource_name': rc_name,\n"
+      "                'amount': amount,\n            }\n"
+      "            raise webob.exc.HTTPBadRequest(msg)\n",
+      "        amount = int(amount)\n", 'R15.2'),
+    M('c15-reintroduce-F8', 'placement/lib.py',
+      "            try:\n                limit = int(limit[0])\n"
+      "                if limit < 1:\n                    raise ValueError()\n"
+      "            except ValueError:\n"
+      "                raise webob.exc.HTTPBadRequest(\n"
+      "                    \"Invalid query string parameters: Expected 'limit' \"\n"
+      "                    \"parameter to be a positive integer. Got: %s\" % limit[0])\n",
+      "            limit = int(limit[0])\n", 'R15.2'),
+    M('c15-reintroduce-F10', HI,
+      "        inventory.capacity\n    except (ValueError, TypeError, OverflowError) as exc:",
+      "    except (ValueError, TypeError) as exc:", 'R15.2'),
+    M('c15-F10-overflow-not-caught', HI,
+      "    except (ValueError, TypeError, OverflowError) as exc:",
+      "    except (ValueError, TypeError) as exc:", 'R15.2'),
+    M('c15-uuid-unchecked', HA,
+      "    if not uuidutils.is_uuid_like(consumer_uuid):\n"
+      "        raise webob.exc.HTTPBadRequest(\n"
+      "            'Malformed consumer_uuid: %(consumer_uuid)s' %\n"
+      "            {'consumer_uuid': consumer_uuid})\n", "", 'R15.2'),
+    M('c15-split-unguarded', H + 'trait.py',
+      "    try:\n        op, value = qs.split(':', 1)\n    except ValueError:\n"
+      "        msg = ('Badly formatted name parameter. Expected name query string '\n"
+      "               'parameter in form: '\n"
+      "               '?name=[in|startswith]:[name1,name2|prefix]. Got: \"%s\"')\n"
+      "        msg = msg % qs\n        raise webob.exc.HTTPBadRequest(msg)\n",
+      "    op, value = qs.split(':', 1)\n", 'R15.2'),
+    M('c15-handler-not-wsgified', H + 'usage.py',
+      "@wsgi_wrapper.PlacementWsgify\n@util.check_accept('application/json')\ndef list_usages(req):",
+      "@util.check_accept('application/json')\n@wsgi_wrapper.PlacementWsgify\ndef list_usages(req):",
+      'R15.3'),
+    M('c15-404-without-formatter', 'placement/handler.py',
+      "    if result is None:\n        raise webob.exc.HTTPNotFound(\n            json_formatter=util.json_error_formatter)",
+      "    if result is None:\n        raise webob.exc.HTTPNotFound()", 'R15.3'),
+    M('c15-code-from-1.24', 'placement/util.py',
+      "ERROR_CODE_MICROVERSION = (1, 23)", "ERROR_CODE_MICROVERSION = (1, 24)",
+      'R15.3'),
+    M('c15-no-request-id', 'placement/util.py',
+      "    if request_id.ENV_REQUEST_ID in environ:\n        error_dict['request_id'] = environ[request_id.ENV_REQUEST_ID]\n",
+      "", 'R15.3'),
+    M('c15-write-before-validation', HRP,
+      "    allow_reparenting = want_version.matches((1, 37))\n\n    data = util.extract_json(req.body, schema)\n",
+      "    allow_reparenting = want_version.matches((1, 37))\n    resource_provider.save()\n\n    data = util.extract_json(req.body, schema)\n",
+      'R15.4'),
+    M('c15-inventory-unbounded', 'placement/schemas/inventory.py',
+      '        "total": {\n            "type": "integer",\n            "maximum": db_const.MAX_INT,\n',
+      '        "total": {\n            "type": "integer",\n', 'R15.6'),
+    M('c15-404-to-500', 'placement/handler.py',
+      "        except exception.NotFound as exc:\n            raise webob.exc.HTTPNotFound(\n                exc, json_formatter=util.json_error_formatter)\n",
+      "", 'R15.1'),
+    B('c15-benign-rename', 'placement/util.py',
+      "        try:\n            amount = int(amount)\n        except ValueError:",
+      "        try:\n            amount = int(amount.strip())\n        except (ValueError, TypeError):"),
+]
